@@ -74,15 +74,21 @@ def run_timed(cfg_a, cfg_p, script, horizon_ms, seed=0, only=None, silent_after_
                          'real': list(ends), 'cooperative': False})
 
 
-def run_adaptive(seed, mru, init, nbytes, tick_choices=(1, 5, 20, 80)):
-    ''' Adaptive segment sizing: virtual time passes between callbacks so that ACK latencies differ. '''
+def run_adaptive(seed, mru, init, nbytes, tick_choices=(1, 5, 20, 80), nbundles=1, sender_burst=0):
+    ''' Adaptive segment sizing: virtual time passes between callbacks so that ACK latencies differ.
+    nbundles / sender_burst: several bundles are queued and the sender runs that many queue / pump callbacks
+    before the peer reads anything, so that transfers are pipelined ahead of their acknowledgements. '''
     rnd = random.Random(seed)
     world = World(EndCfg('dtn://a/', seg_mru=10 ** 7, seg_init=init, modulate=rnd.choice([1, 2, 5])),
                   EndCfg('dtn://p/', seg_mru=mru, seg_init=init))
     world.start('P')
     world.start('A')
     world.run_fair(timers=False)
-    world.user_send('A', payload('A', 1, nbytes, seed))
+    for k in range(nbundles):
+        world.user_send('A', payload('A', 1 + k, nbytes + 10 * k, seed + k))
+    for _ in range(sender_burst):
+        world.step('A', 'pq')
+        world.step('A', 'tx')
     for _ in range(3000):
         roles = world.runnable_roles()
         if not roles:
@@ -139,4 +145,11 @@ def executions(tier, seed):
         nbytes = min(rnd.choice([1000, 60000, 250000]), mru * 120)
         traces.append(run_adaptive(seed * 100 + i, mru, init, nbytes))
         metas.append({'kind': 'adaptive', 'peer_mru': mru, 'seg_init': init, 'bytes': nbytes})
+    # pipelined transfers under adaptive sizing: acknowledgements of one transfer arrive while the next is sent
+    for i in range(8 if tier == 'quick' else 120):
+        mru = rnd.choice([50, 500, 9000])
+        nbytes = mru * rnd.choice([2, 3]) + rnd.choice([0, 20])
+        nb = rnd.choice([2, 3])
+        traces.append(run_adaptive(seed * 100 + 50 + i, mru, 100000, nbytes, nbundles=nb, sender_burst=rnd.choice([6, 12, 30])))
+        metas.append({'kind': 'adaptive-pipelined', 'peer_mru': mru, 'bundles': nb, 'bytes': nbytes})
     return traces, metas
